@@ -74,7 +74,7 @@ def f20(scn, rec, res, r):
         continue
       users = [o for o in sub["ops"] if t in o["ins"]]
       name = synth.tname(si, t, len(scn["subs"]))
-      if len(users) >= 2 and any(o["kind"] == "CONCAT" for o in users) and res.count("b'%s'" % name) == 2:
+      if len(users) >= 2 and any(o["kind"] in ("CONCAT", "CONCAT3") for o in users) and res.count("b'%s'" % name) == 2:
         return True
   return False
 
